@@ -20,6 +20,9 @@ def run(tier, seed):
     run_contracts(pack, items)
     from contracts import C06_more
     C06_more.add_obligations(pack, tier)
+    # the effect of a status toggle on a line is kept: what the Toggle changes (u) reaches the residuals of the line
+    from contracts import specutil as U
+    U.status_independence(pack, 'C06', U.system(), 'Line', 'andes/models/line/line.py', replay=U.replay_line_closing)
     from contracts.packutil import native_guard
     from contracts import bounded_timeseries as BTS
     name = 'C06/andes/models/timeseries.py:TimeSeriesModel.apply_exact/bounded:exactly-the-rows-stamped-with-the-current-time-are-applied'
